@@ -56,6 +56,9 @@ def check(repo, col, tier):
     # uncoupled cells with different compartment counts must be REFUSED by the explicit scheme, not reshaped together
     col.rule("R-C12-refuse", "forward Euler refuses what its (nbranches, -1) layout cannot represent", 3)
     c01_solver._refuse(repo, col, "R-C12-refuse")
+    # a network is a disjoint union: the generic sparse system needs a row for every compartment, also for a point cell listed last
+    col.rule("R-C12-dimension", "the sparse system of a network has a row for every compartment and branch point", 3)
+    c01_solver._dimension(repo, col, "R-C12-dimension")
     from . import c01
     col.rule("R-C12-layout", "every compartment's row is the one its neighbours' couplings point to (padded layout)", 8)
     c01._layout(repo, col, "R-C12-layout")
@@ -201,6 +204,18 @@ def _shifted_parents(repo, fi, value):
         if lo.op == "const" and lo.name is None and minus1:
             return "DISCHARGED", ""
         return "VIOLATED", f"cell c is shifted by entry c of `{O.args[0].short(60)}`: that is not the number of branches before cell c"
+    if O.op == "elem" and is_branch_cumsum(O.args[0]):
+        # zip(S, cells): the lock-step element of S itself -- entry c, as long as S starts with the leading zero
+        S = O.args[0]
+        while S.op == "mcall" and S.name in ("astype", "copy", "tolist") and S.args:
+            S = S.args[0]
+        lead = (S.op == "attr" and S.name == "_cumsum_nbranches") or T.find(S, lambda x: x.op in ("mcall", "call") and x.name == "cumsum_leading_zero") is not None or \
+            (S.op == "mcall" and S.name in ("concatenate", "hstack") and len(S.args) > 1 and S.args[1].op in ("list", "tuple") and S.args[1].args and
+             T.find(S.args[1].args[0], lambda x: x.op in ("mcall", "call") and x.name == "cumsum") is None and
+             T.find(S.args[1].args[0], lambda x: x.op == "const" and x.name == 0) is not None)
+        if lead:
+            return "DISCHARGED", ""
+        return "UNDECIDED", f"cell c is shifted by element c of {S.short(60)}: leading zero not recognised"
     if O.op == "sub" and is_branch_cumsum(O.args[0]):
         return "VIOLATED", f"cell c is shifted by `{O.short(60)}`: not entry c of the leading-zero cumulative branch count"
     # a multiple of the cell number: c * (branches of ONE cell)
